@@ -263,11 +263,13 @@ func answers(ctx context.Context, db *sql.DB, seed uint32, qs [][]common.JFilter
 func freshWithPre(ctx context.Context, pre [][]common.JEvent) (*sql.DB, uint32) {
 	db, seed, err := openDB(ctx, "sqlite3_fault", ":memory:")
 	if err != nil {
-		common.Fatalf("open: %v", err)
+		panic(fmt.Sprintf("open: %v", err))
 	}
 	for _, b := range pre {
 		if err := sqlite.VerifInsertEvents(ctx, db, seed, toEvents(b)); err != nil {
-			common.Fatalf("pre batch failed: %v", err)
+			// a failure of the implementation is an observation (c14Run records it)
+			db.Close()
+			panic("insertEvents failed on an earlier batch: " + err.Error())
 		}
 	}
 	return db, seed
@@ -322,18 +324,18 @@ func c14RunReopen(c *c14Case) {
 	ctx := context.Background()
 	dir, err := os.MkdirTemp(os.TempDir(), "verif-c14-")
 	if err != nil {
-		common.Fatalf("mkdtemp: %v", err)
+		panic(fmt.Sprintf("mkdtemp: %v", err))
 	}
 	defer os.RemoveAll(dir)
 	path := filepath.Join(dir, "relay.db")
 	db, seed, err := openDB(ctx, "sqlite3", path)
 	if err != nil {
-		common.Fatalf("open file db: %v", err)
+		panic(fmt.Sprintf("open file db: %v", err))
 	}
 	c.Seeds = []uint32{seed}
 	ref, rseed, err := openDB(ctx, "sqlite3", ":memory:")
 	if err != nil {
-		common.Fatalf("open: %v", err)
+		panic(fmt.Sprintf("open: %v", err))
 	}
 	defer ref.Close()
 	for i := range c.Steps {
